@@ -160,6 +160,7 @@ func ExploreProcs(cfg ProcConfig) *Report {
 	queue := [][]int{{}}
 	inflight := 0
 	stopped := false
+	crashes := 0
 	bin := os.Getenv("VERIF_BIN")
 	if bin == "" {
 		bin = os.Args[0]
@@ -173,11 +174,21 @@ func ExploreProcs(cfg ProcConfig) *Report {
 			var stdin *bufio.Writer
 			var stdout *bufio.Reader
 			var closer func()
+			stderrPath := ""
+			defer func() {
+				if stderrPath != "" {
+					os.Remove(stderrPath)
+				}
+			}()
 			startProc := func() error {
 				cmd = exec.Command(bin, "-test.run", "^TestCheck$", "-test.timeout", "0")
 				cmd.Env = append(os.Environ(), "VERIF_WORKER="+cfg.Scenario, "GOMAXPROCS=1")
 				cmd.Env = append(cmd.Env, cfg.Env...)
-				cmd.Stderr = nil
+				errFile, _ := os.CreateTemp("", "verif-worker-stderr-")
+				if errFile != nil {
+					cmd.Stderr = errFile
+					stderrPath = errFile.Name()
+				}
 				ip, err := cmd.StdinPipe()
 				if err != nil {
 					return err
@@ -290,10 +301,25 @@ func ExploreProcs(cfg ProcConfig) *Report {
 					stopProc()
 					var tape []int
 					json.Unmarshal([]byte(last), &tape)
+					if b, err := os.ReadFile(stderrPath); err == nil {
+						lines := strings.Split(string(b), "\n")
+						for _, l := range lines {
+							if strings.HasPrefix(l, "panic:") || strings.HasPrefix(l, "fatal error:") {
+								tail = append([]string{l}, tail...)
+								break
+							}
+						}
+					}
 					mu.Lock()
 					total.Executions++
+					crashes++
+					if crashes >= 3 && !stopped {
+						// the crash is established and replayable; a process restart per crashing execution is not worth the time
+						total.Capped = "stopped after 3 crashed executions"
+						stopped = true
+					}
 					total.addViolation(Found{Tape: tape, Labels: []string{"(worker crashed; tape = announced prefix followed by default choices)"},
-						Outcome: Outcome{Violation: "the process crashed (panic or fatal error) during this execution", Sig: "crash", Detail: strings.Join(tail, "\n")}})
+						Outcome: Outcome{Violation: "the process crashed (panic or fatal error) during this execution", Sig: crashSig(tail), Detail: strings.Join(tail, "\n")}})
 					// the rest of the batch is lost with the worker: re-queue everything but the crashed prefix
 					for _, p := range batch {
 						if fmt.Sprint(p) != fmt.Sprint(tape) {
@@ -307,6 +333,13 @@ func ExploreProcs(cfg ProcConfig) *Report {
 				// a worker that exited after Abort (deadlock) must be restarted
 				if resp.Exiting {
 					stopProc()
+					mu.Lock()
+					crashes++
+					if crashes >= 3 && !stopped {
+						total.Capped = "stopped after 3 executions that could not be unwound (deadlock inside a bubble)"
+						stopped = true
+					}
+					mu.Unlock()
 				}
 				mu.Lock()
 				cond.Broadcast()
@@ -315,10 +348,107 @@ func ExploreProcs(cfg ProcConfig) *Report {
 		}(w)
 	}
 	wg.Wait()
-	if total.Capped != "" {
+	if total.Capped != "" || total.Diverged > 0 {
 		total.Exhaustive = false
 	}
+	// a violation is reported only if its tape reproduces it twice in fresh worker processes
+	var confirmed []Found
+	for _, f := range total.Violations {
+		ok := 0
+		for i := 0; i < 2; i++ {
+			if sig, done := replayInWorker(bin, cfg, f.Tape); done && sameClass(sig, f.Outcome.Sig) {
+				ok++
+			}
+		}
+		if ok == 2 {
+			confirmed = append(confirmed, f)
+		} else {
+			total.Unconfirmed++
+		}
+	}
+	total.Violations = confirmed
 	total.Wall = time.Since(start)
 	return total
 }
 
+func sameClass(a, b string) bool {
+	if strings.HasPrefix(a, "crash") && strings.HasPrefix(b, "crash") {
+		return true
+	}
+	return a == b
+}
+
+// replayInWorker runs exactly one execution (the given tape) in a fresh worker
+// and returns the signature of the violation it shows ("" if none).
+func replayInWorker(bin string, cfg ProcConfig, tape []int) (string, bool) {
+	cmd := exec.Command(bin, "-test.run", "^TestCheck$", "-test.timeout", "0")
+	cmd.Env = append(os.Environ(), "VERIF_WORKER="+cfg.Scenario, "GOMAXPROCS=1")
+	cmd.Env = append(cmd.Env, cfg.Env...)
+	ip, err := cmd.StdinPipe()
+	if err != nil {
+		return "", false
+	}
+	op, err := cmd.StdoutPipe()
+	if err != nil {
+		return "", false
+	}
+	if err := cmd.Start(); err != nil {
+		return "", false
+	}
+	req, _ := json.Marshal(workerReq{Prefixes: [][]int{tape}, Budget: 1, Bound: 0})
+	ip.Write(append(req, '\n'))
+	rd := bufio.NewReaderSize(op, 1<<20)
+	var resp *workerResp
+	done := make(chan struct{})
+	go func() {
+		defer close(done)
+		for {
+			line, err := rd.ReadString('\n')
+			if len(line) > 2 && line[0] == 'D' && line[1] == ' ' {
+				var r workerResp
+				if json.Unmarshal([]byte(line[2:]), &r) == nil {
+					resp = &r
+				}
+				return
+			}
+			if err != nil {
+				return
+			}
+		}
+	}()
+	select {
+	case <-done:
+	case <-time.After(120 * time.Second):
+		cmd.Process.Kill()
+		<-done
+		ip.Close()
+		cmd.Wait()
+		return "", false
+	}
+	ip.Close()
+	cmd.Wait()
+	if resp == nil {
+		return "crash", true
+	}
+	if resp.Report != nil && resp.Report.Diverged > 0 {
+		return "", false
+	}
+	if resp.Report != nil && len(resp.Report.Violations) > 0 {
+		return resp.Report.Violations[0].Outcome.Sig, true
+	}
+	return "", true
+}
+
+// crashSig derives a stable signature from the panic line of a crashed worker.
+func crashSig(tail []string) string {
+	for _, l := range tail {
+		if strings.HasPrefix(l, "panic:") || strings.HasPrefix(l, "fatal error:") {
+			l = strings.SplitN(l, " [recovered", 2)[0]
+			if len(l) > 90 {
+				l = l[:90]
+			}
+			return "crash:" + l
+		}
+	}
+	return "crash"
+}
